@@ -52,9 +52,12 @@ func xmpText(c *Ctx, n int) string {
 	for i := range b {
 		b[i] = alpha[c.Rng.Intn(len(alpha))]
 	}
-	// element text that starts with '>' or "/>" is a listed finding (see the feature cases below), not part of the base stream
-	if n > 0 && (b[0] == ' ' || b[0] == '>' || b[0] == '/') {
+	// leading white space is trimmed by the reader; a leading '>' or "/>" is kept (repaired, see known_findings)
+	if n > 0 && b[0] == ' ' {
 		b[0] = 'x'
+	}
+	if n > 2 && c.Rng.Intn(12) == 0 {
+		copy(b, []string{">", "/>", "/", ">>"}[c.Rng.Intn(4)])
 	}
 	return string(b)
 }
@@ -294,7 +297,7 @@ func runC13(c *Ctx) error {
 			}
 		}
 	}
-	// feature cases: element text starting with '>' resp. "/>" (known finding: the reader drops those characters)
+	// feature cases: element text starting with '>' resp. "/>" (the reader used to drop those characters; repaired)
 	for _, lead := range []string{">", "/>"} {
 		pr := []xprop{{"tiff", "Make", lead + "Canon", "", nil}, {"tiff", "Model", "EOS", "", nil}}
 		st := xmpStyle{quote: '"', pad: func() string { return " " }, form: []bool{false, true}}
